@@ -276,18 +276,6 @@ Proof.
 Qed.
 
 (* ---- the premises of the free-variable theorem as one boolean (evaluated by the interpreter) ---------------------- *)
-Definition odes_of (l : list ceq) : list orec :=
-  flat_map (fun q => match q_lhs q with CLD y _ => [(y, q_rhs q, 0%nat)] | CLV _ => [] end) l.
-
-Definition free_ok (s : cstate) (v : nat) : bool :=
-  let N := length (cvars s) in
-  let rem := odes_of (ceqs s) in
-  lhs_nodupb (map q_lhs (ceqs s)) &&
-  forallb (fun q => match q_lhs q with CLD y t => Nat.eqb t v && Nat.ltb y N | CLV x => Nat.ltb x N end) (ceqs s) &&
-  Nat.ltb v N &&
-  forallb (fun q => fresh_var1 N q && forallb (fun w => fresh_var1 w q) (seq (S N) (length rem))
-                    && forallb (fun y => fresh_atom1 y N q) (ys_of rem)) (ceqs s).
-
 Lemma split_odes v l : (forall q y t, In q l -> q_lhs q = CLD y t -> t = v) ->
   Permutation l (filter (fun q => negb (is_ode q)) l ++ map (Oeq v) (odes_of l)).
 Proof.
